@@ -11,6 +11,8 @@ rsync -a --exclude .git --exclude replays --exclude evidence --exclude seeded --
 trap 'rm -rf "$snap"' EXIT
 for s in "$@"; do
   prop=$(python3 -c "import json;print(json.load(open('seeded/$s/meta.json'))['breaks_property'])")
+  # (a change may fall to the check of another property: e.g. a thread race seeded for C11 is C18's)
+  also=$(python3 -c "import json;print(json.load(open('seeded/$s/meta.json')).get('also_screen_with',''))")
   wt=/tmp/scr/$s
   git -C /repo worktree remove --force "$wt" >/dev/null 2>&1
   git -C /repo worktree add --detach "$wt" HEAD >/dev/null 2>&1 || { echo "SEED $s worktree-failed"; continue; }
@@ -18,6 +20,7 @@ for s in "$@"; do
     echo "SEED $s patch-does-not-apply"; git -C /repo worktree remove --force "$wt"; continue
   fi
   out=$(VERIF_REPO=$wt VERIF_EVIDENCE_DIR=/tmp/scr/ev "$snap"/check $prop --tier quick 2>&1 | grep -E "^(OK|FAIL)" | tail -1)
+  case "$out" in FAIL*) ;; *) [ -n "$also" ] && out=$(VERIF_REPO=$wt VERIF_EVIDENCE_DIR=/tmp/scr/ev "$snap"/check $also --tier quick 2>&1 | grep -E "^(OK|FAIL)" | tail -1);; esac
   git -C /repo worktree remove --force "$wt"
   case "$out" in FAIL*) echo "SEED $s caught  [$out]";; *) echo "SEED $s MISSED  [$out]";; esac
 done
